@@ -443,6 +443,24 @@ def run_hook_xmm(h, rng):
     return res
 
 
+def run_hook_ymm(h, rng):
+    """the same with ymm0-15 (AVX machines): -> [(hook, before, after)] or [] without AVX"""
+    if not have_avx():
+        return []
+    def words(regs):
+        return " ".join("%x" % w for r in regs for w in r)
+    b = [gen_xmm(rng, "rnd")[0] for _ in range(4)]
+    lines = ["P 1 100", "YE 0 1 " + words(b[0]), "P 2 101", "YE 1 2 " + words(b[1]), "YR 2 " + words(b[2]), "YR 1 " + words(b[3])]
+    rc, out, err = h.run(lines, 4)
+    res = []
+    for hook, bef, line in (("mcount_entry", b[0], out[1]), ("mcount_entry", b[1], out[3]),
+                            ("mcount_exit", b[2], out[4]), ("mcount_exit", b[3], out[5])):
+        k = line.partition(" | ")[0].split()
+        vals = [int(x, 16) for x in k[-64:]]
+        res.append((hook, bef, [tuple(vals[4 * i:4 * i + 4]) for i in range(16)]))
+    return res
+
+
 def coq_pairs(l):
     return "[%s]" % "; ".join("(%d, %d)" % p for p in l)
 
@@ -458,7 +476,7 @@ Local Open Scope Z_scope.
 """
 
 
-def evaluate_chunk(ctx, scases, xcases, name, hcases=(), tcases=(), ecases=(), dcases=()):
+def evaluate_chunk(ctx, scases, xcases, name, hcases=(), tcases=(), ecases=(), dcases=(), ycases=()):
     defs = "Local Open Scope nat_scope.\nDefinition scases : list shadow_case := [\n%s\n].\nLocal Open Scope Z_scope.\n" % ";\n".join(coq_shadow_case(c) for c in scases)
     defs += "Definition xcases : list xmm_case := [\n%s\n].\n" % ";\n".join(
         "{| xc_avx := %s; xc_before := %s; xc_clobber := %s; xc_after := %s |}" % (coq.coq_bool(v), coq_yregs(b), coq_yregs(c), coq_yregs(a))
@@ -472,7 +490,11 @@ def evaluate_chunk(ctx, scases, xcases, name, hcases=(), tcases=(), ecases=(), d
         coq_shadow_case(c) for c in ecases)
     defs += "Local Open Scope nat_scope.\nDefinition dcases : list sched_case := [\n%s\n].\nLocal Open Scope Z_scope.\n" % ";\n".join(
         coq_sched_case(c) for c in dcases)
+    defs += "Definition ycases : list hook_ymm_case := [\n%s\n].\n" % ";\n".join(
+        '{| hy_hook := "%s"%%string; hy_before := %s; hy_after := %s |}' % (hk, coq_yregs(b), coq_yregs(a)) for (hk, b, a) in ycases)
     res = coq.run_cases(ctx, name, PRE, defs, [
+        ("y_mismatch", "bad_indices hook_ymm_agrees ycases 0"),
+        ("y_violations", "bad_indices hook_ymm_ok ycases 0"),
         ("d_mismatch", "bad_indices sched_agrees dcases 0"),
         ("d_violations", "bad_indices sched_ok dcases 0"),
         ("e_mismatch", "bad_indices est_agrees ecases 0"),
@@ -491,7 +513,7 @@ def evaluate_chunk(ctx, scases, xcases, name, hcases=(), tcases=(), ecases=(), d
     return {k: coq.parse_nat_list(v) for k, v in res.items()}
 
 
-def evaluate(ctx, scases, xcases, name="cases", chunk=50, hcases=(), tcases=(), ecases=(), dcases=()):
+def evaluate(ctx, scases, xcases, name="cases", chunk=50, hcases=(), tcases=(), ecases=(), dcases=(), ycases=()):
     """model and checker evaluated by vm_compute inside Coq; chunks run in parallel coqc processes"""
     jobs = []
     for k, j in enumerate(range(0, max(len(scases), 1), chunk)):
@@ -499,12 +521,13 @@ def evaluate(ctx, scases, xcases, name="cases", chunk=50, hcases=(), tcases=(), 
     with concurrent.futures.ThreadPoolExecutor(max_workers=6) as ex:
         rs = list(ex.map(lambda jb: evaluate_chunk(ctx, jb[1], jb[2], "%s_%d" % (name, jb[0]),
                                                    hcases if jb[0] == 0 else (), tcases if jb[0] == 0 else (),
-                                                   ecases if jb[0] == 0 else (), dcases if jb[0] == 0 else ()), jobs))
+                                                   ecases if jb[0] == 0 else (), dcases if jb[0] == 0 else (),
+                                                   ycases if jb[0] == 0 else ()), jobs))
     if any(r is None for r in rs):
         return None
     res = {"s_mismatch": [], "s_violations": [], "x_mismatch": [], "x_violations": [], "h_mismatch": [], "h_violations": [],
            "t_mismatch": [], "t_violations": [], "e_mismatch": [], "e_violations": [],
-           "d_mismatch": [], "d_violations": []}
+           "d_mismatch": [], "d_violations": [], "y_mismatch": [], "y_violations": []}
     for (j, _, _), r in zip(jobs, rs):
         res["s_mismatch"] += [j + i for i in r["s_mismatch"]]
         res["s_violations"] += [j + i for i in r["s_violations"]]
@@ -518,6 +541,8 @@ def evaluate(ctx, scases, xcases, name="cases", chunk=50, hcases=(), tcases=(), 
         res["e_violations"] += r["e_violations"]
         res["d_mismatch"] += r["d_mismatch"]
         res["d_violations"] += r["d_violations"]
+        res["y_mismatch"] += r["y_mismatch"]
+        res["y_violations"] += r["y_violations"]
     return res
 
 
@@ -916,6 +941,11 @@ def run(ctx):
             ctx.case(key=("hookxmm", hc[0], tuple(hc[1])), tags=["hookxmm:" + hc[0]],
                      sample={"hook_xmm": {"hook": hc[0], "before0": ["%x" % w for w in hc[1][0]],
                                           "after0": ["%x" % w for w in hc[2][0]]}} if i == 0 and hc[0] == "mcount_exit" else None)
+    ycases = []
+    for i in range(ctx.n(4, 30)):
+        for hc in run_hook_ymm(h, ctx.rng):
+            ycases.append(hc)
+            ctx.case(key=("hookymm", hc[0], tuple(hc[1])), tags=["hookymm:" + hc[0]])
     tcases = []
     for i in range(ctx.n(30, 300)):
         tree = gen_tree(ctx.rng, ["tail", "pg", "plttail", "plt", "deep"][i % 5], maxd=4, budget=10)
@@ -956,9 +986,10 @@ def run(ctx):
                  size=len(c["sched"]))
     ctx.log("ran %d call trees, %d xmm-pair, %d hook-call xmm, %d finish, %d estimate-return and %d thread-schedule cases on libmcount"
             % (len(scases), len(xcases), len(hcases), len(tcases), len(ecases), len(dcases)))
-    res = evaluate(ctx, [c for c in scases if not c["crashed"]], xcases, hcases=hcases, tcases=tcases, ecases=ecases, dcases=dcases)
-    ctx.log("model evaluated in Coq:", res)
-    verdict(ctx, [c for c in scases if not c["crashed"]], xcases, res, hcases, tcases, ecases, dcases)
+    res = evaluate(ctx, [c for c in scases if not c["crashed"]], xcases, hcases=hcases, tcases=tcases, ecases=ecases, dcases=dcases,
+                   ycases=ycases)
+    ctx.log("model evaluated in Coq:", {k: v for k, v in (res or {}).items() if v} or "all agree, all accepted")
+    verdict(ctx, [c for c in scases if not c["crashed"]], xcases, res, hcases, tcases, ecases, dcases, ycases)
     # ---- monitors
     objdump_monitor(ctx, objdir)
     ctx.log("objdump monitor done")
@@ -969,9 +1000,20 @@ def run(ctx):
     ctx.extra["xmm_cases"] = len(xcases)
 
 
-def verdict(ctx, scases, xcases, res, hcases=(), tcases=(), ecases=(), dcases=()):
+def verdict(ctx, scases, xcases, res, hcases=(), tcases=(), ecases=(), dcases=(), ycases=()):
     if res is None:
         return
+    for i in res.get("y_violations", [])[:3]:
+        hk, b, a = ycases[i]
+        ctx.violation("C01 violated: %s does not give back all 256 bits of ymm0-7 when libc code it reaches uses the vector "
+                      "registers and ends with vzeroupper (__m256 arguments / return values of the traced function)" % hk,
+                      {"kind": "hookxmm", "hook": hk, "before": [list(map(hex, p)) for p in b],
+                       "after": [list(map(hex, p)) for p in a]}, True)
+    if res.get("y_mismatch") and not res.get("y_violations"):
+        hk, b, a = ycases[res["y_mismatch"][0]]
+        ctx.violation("hook-call ymm contract (Model.hook_call_ymm with the generated wrappers and AVX pair) and the real %s disagree" % hk,
+                      {"kind": "hookxmm", "hook": hk, "before": [list(map(hex, p)) for p in b],
+                       "after": [list(map(hex, p)) for p in a]}, False)
     for i in res.get("d_violations", [])[:3]:
         c = dcases[i]
         ctx.violation("C01 violated with several threads: a return did not go to its real caller or errno changed",
